@@ -20,7 +20,11 @@ Record connres := mkCR {
 
 Inductive c13case :=
 | CReplay (cf : cfg) (blocks : list block) (conns : list connres)
-| CStress (maxw : Z) (conns : list connres) (maxconc : Z) (final : obs).
+| CStress (maxw : Z) (conns : list connres) (maxconc : Z) (final : obs)
+(* through the public API: Server.Serve over a listener, one request per connection; counters per accepted connection
+   (served = handler calls), number of clients that read a 503, clients that got no complete response, and the
+   workerFunc goroutines left after Serve returned *)
+| CServer (maxw : Z) (conns : list connres) (maxconc : Z) (n503 : Z) (lost : Z) (workers_left : Z).
 
 Definition nat_list_eqb := list_eqb Nat.eqb.
 
@@ -54,6 +58,7 @@ Definition corr_ok (c : c13case) : bool :=
       | None => false
       end
   | CStress _ _ _ _ => true
+  | CServer _ _ _ _ _ _ => true
   end.
 
 (* the property, judged on what the implementation did *)
@@ -75,6 +80,14 @@ Definition block_prop (maxw : Z) (b : block) : bool :=
 Definition final_prop (o : obs) : bool :=
   o_stop o && (o_wcount o =? 0) && match o_ready o with [] => true | _ => false end.
 
+(* at the server the rejected connection is answered and closed by Serve itself *)
+Definition conn_prop_srv (r : connres) : bool :=
+  if cr_accepted r then
+    (cr_served r =? 1)
+    && (if cr_hij r then (cr_sthij r =? 1) && (cr_stclosed r =? 0)
+        else (cr_closed r =? 1) && (cr_stclosed r =? 1) && (cr_sthij r =? 0))
+  else (cr_served r =? 0) && (cr_closed r =? 1) && (cr_stclosed r =? 1) && (cr_sthij r =? 0).
+
 Definition prop_ok (c : c13case) : bool :=
   match c with
   | CReplay cf bs conns =>
@@ -82,4 +95,8 @@ Definition prop_ok (c : c13case) : bool :=
       && match rev bs with Blk _ o _ :: _ => final_prop o | [] => true end   (* every replay ends with Stop + drain *)
   | CStress maxw conns maxconc final =>
       forallb conn_prop conns && (maxconc <=? maxw) && final_prop final
+  | CServer maxw conns maxconc n503 lost wleft =>
+      forallb conn_prop_srv conns && (maxconc <=? maxw)
+      && (Z.of_nat (length (filter (fun r => negb (cr_accepted r)) conns)) =? n503)   (* rejected = answered 503, nothing dropped silently *)
+      && (lost =? 0) && (wleft =? 0)
   end.
